@@ -1,9 +1,9 @@
-\* dynamics: edits, scrolling, selection, list changes, resizes on a few configurations
+\* quick: dynamics (edits incl. a query longer than the line, scrolling, selection, list changes, resizes)
 CONSTANTS
   Widths = {12, 22}
-  Heights = {4, 6}
+  Heights = {5}
   Layouts = {"default", "reverse", "reverse-list"}
-  Infos = {"default", "inline"}
+  Infos = {"default"}
   Seps = {TRUE}
   Headers <- MCHeadersQ
   Hlines <- MCHlinesQ
@@ -12,9 +12,9 @@ CONSTANTS
   Pointers <- MCPointers
   Markers <- MCMarkers
   Ellipses <- MCEllipses
-  Lists <- MCListsQ
-  Multis = {2}
-  Queries <- MCQueries
+  Lists <- MCListsD
+  Multis = {1}
+  Queries <- MCQueriesD
   MaxCount = 12
   Acts = {"edit", "move", "toggle", "list", "resize"}
 INIT Init
